@@ -24,6 +24,8 @@ var gen2Conds = []string{
 	`F.M["a"] == 0`,
 	"F.P.V < 2",
 	"F.K + 1 < 3 && F.SelArr[F.K + 1] < 60",
+	"(F.I >= 1)",
+	"!(F.I >= 1)",
 }
 
 // %s = own name, %o = other rule's name
@@ -73,7 +75,7 @@ func gen2Rule(name, other string, ci, ai int) *grl.Rule {
 
 // general2 emits all 2-rule sets over the (condition x action-list) alphabet.
 func general2(tier string, maxCycle uint64, emit func(Case)) {
-	conds, acts := []int{0, 1, 2, 3, 4, 5, 12}, []int{0, 1, 2, 3, 4, 5, 12}
+	conds, acts := []int{0, 1, 2, 3, 4, 5, 12, 13, 14}, []int{0, 1, 2, 3, 4, 5, 12}
 	if tier == "thorough" {
 		conds, acts = nil, nil
 		for i := range gen2Conds {
